@@ -22,6 +22,12 @@ func vfMarker(f string) input.Input {
 	return input.Input{Decorators: []input.Decorator{{Tag: f, Decorator: "D"}}}
 }
 
+// vfTagMarker: a file without decorators that appends a tag named after
+// itself to the service "s".
+func vfTagMarker(f string) input.Input {
+	return input.Input{Services: map[string]input.Service{"s": {Tags: []input.Tag{{Name: f}}}}}
+}
+
 // vfGlobChoice: what Glob returns for one pattern: 0..2 of the three files,
 // in any order.
 func vfGlobChoice(files []string) []string {
@@ -49,13 +55,27 @@ func VF_C09_fold() {
 	f := []string{vfFileName("f0"), vfFileName("f1"), vfFileName("f2")}
 	vfAssume(f[0] != f[1] && f[0] != f[2] && f[1] != f[2])
 	VfEnv = VfEnvT{Patterns: []string{"P0", "P1"}, GlobErr: []bool{false, false}, ReadErr: map[string]bool{}, YamlErr: map[string]bool{}, Inputs: map[string]input.Input{}}
-	for _, n := range f {
-		VfEnv.Inputs[n] = vfMarker(n)
+	// every file leaves a marker named after itself in an appended list:
+	// a decorator, or (a file without a decorators key) a tag on service "s"
+	byTag := map[string]bool{}
+	for i, n := range f {
+		if i == 1 && vfBool("tagfile") {
+			VfEnv.Inputs[n] = vfTagMarker(n)
+			byTag[n] = true
+		} else {
+			VfEnv.Inputs[n] = vfMarker(n)
+		}
 	}
 	VfEnv.GlobFiles = [][]string{vfGlobChoice(f), vfGlobChoice(f)}
-	var want []string
+	var want, wantTags []string
 	for _, g := range VfEnv.GlobFiles {
-		want = append(want, vfSorted2(g)...)
+		for _, n := range vfSorted2(g) {
+			if byTag[n] {
+				wantTags = append(wantTags, n)
+			} else {
+				want = append(want, n)
+			}
+		}
 	}
 	var in input.Input
 	err := NewStepReadConfig(&VfPrinter{}, VfEnv.Patterns).Run(&in, nil)
@@ -63,11 +83,20 @@ func VF_C09_fold() {
 	for _, d := range in.Decorators {
 		got = append(got, d.Tag)
 	}
-	vfObserve("order", strings.Join(got, ","))
-	vfAssert(len(got) == len(want), "every matched file is merged once per match")
+	gotTags := make([]string, 0)
+	for _, t := range in.Services["s"].Tags {
+		gotTags = append(gotTags, t.Name)
+	}
+	vfObserve("order", strings.Join(got, ",")+"|"+strings.Join(gotTags, ","))
+	vfAssert(len(got) == len(want) && len(gotTags) == len(wantTags), "every matched file is merged once per match")
 	if len(got) == len(want) {
 		for i := range got {
 			vfAssert(got[i] == want[i], "files are merged in pattern order, then lexical path order")
+		}
+	}
+	if len(gotTags) == len(wantTags) {
+		for i := range gotTags {
+			vfAssert(gotTags[i] == wantTags[i], "files are merged in pattern order, then lexical path order (tags)")
 		}
 	}
 	dup := false
@@ -76,7 +105,7 @@ func VF_C09_fold() {
 			dup = vfOr(dup, a == b)
 		}
 	}
-	vfAssert((err != nil) == vfOr(dup, len(want) == 0), "rejected iff no file was processed or a file matched two patterns")
+	vfAssert((err != nil) == vfOr(dup, len(want)+len(wantTags) == 0), "rejected iff no file was processed or a file matched two patterns")
 	vfReach("C09_fold")
 }
 
